@@ -27,6 +27,9 @@ sh("cargo build --offline --quiet", cwd=REPO, env=env)
 shutil.copy("/verif/.cache/target/debug/stg", "/verif/.cache/stg-seed-orig")
 d0 = sh(["bash", os.path.join(src, "demo.sh"), "/verif/.cache/stg-seed-orig"])
 out["demo_without_change"] = d0.returncode
+# the evidence files must keep describing the UNCHANGED tree: saved here, restored below
+shutil.rmtree("/verif/.cache/evidence-saved", ignore_errors=True)
+shutil.copytree("/verif/evidence", "/verif/.cache/evidence-saved")
 # apply
 a = sh(["git", "-C", REPO, "apply", "--3way", os.path.join(src, "patch.diff")])
 if a.returncode != 0:
@@ -63,6 +66,8 @@ try:
         out["checks"][c] = {"exit": r.returncode, "lines": lines[:6], "detail": detail[:3],
                             "wall_s": round(time.time() - t0, 1)}
 finally:
+    shutil.rmtree("/verif/evidence", ignore_errors=True)
+    shutil.copytree("/verif/.cache/evidence-saved", "/verif/evidence")
     sh("git -C /repo checkout -- . ; git -C /repo reset -q")
     assert sh("git -C /repo status --porcelain").stdout.strip() == ""
 n = 1
